@@ -440,6 +440,13 @@ def check_case(case, ctx: Ctx) -> CaseResult:
         wlo, whi = lo, hi + MARGIN * k + 1
         window = list(range(lo, hi + 1))
     prog, U, readings, unbounded, info = expected_sets(case, wlo, whi)
+    if unbounded and U and any(
+            not [p for p in M if p > whi - (MARGIN - 1) * k] for M in readings):
+        # the exclusions remove a whole infinite tail of an unbounded
+        # sequence: deciding emptiness of such a set is outside the domain
+        ctx.col.rejected += 1
+        return CaseResult([], False, classes + ['undefined:infinite-tail-'
+                                                'excluded'])
     in_classes = input_classes(case, prog, info)
     classes += ['in:' + c for c in sorted(set(in_classes))]
     root = next((c for c in ROOT_CLASSES if c in in_classes), None)
@@ -730,15 +737,23 @@ def big_cases(draw):
     kk = prog[2] if prog[0] != 'one' else 1
     n_ex = draw(st.integers(0, 3)) if U else 0
     excl = []
+    unb = ce is None and prog_max(prog) is None
     for _ in range(n_ex):
         kind = draw(st.integers(0, 5))
+        if unb and kind in (3, 5):
+            if any('/P' in x or x.startswith('P') for x in excl
+                   if not x.startswith('R')):
+                kind = 4     # at most one unbounded exclusion sequence
         u = U[draw(st.sampled_from([0, -1, len(U) // 2, 1 % len(U),
                                     -2 % len(U)]))]
         if kind <= 2:
             excl.append(str(u))
         elif kind == 3:
+            # (an unbounded exclusion with the main step itself would
+            # exclude a whole infinite tail: emptiness of such a set is not
+            # something the API can be asked to decide)
             excl.append(f'{max(0, u - draw(st.integers(0, 2)) * kk)}'
-                        f'/P{kk * draw(st.integers(1, 3))}')
+                        f'/P{kk * draw(st.integers(2, 3))}')
         elif kind == 4:
             excl.append(f'R{draw(st.integers(1, 4))}/{u}/P{kk}')
         else:
